@@ -17,16 +17,16 @@ import (
 
 // Op kinds.
 const (
-	opAdd      = 0 // Add(elem(A))
-	opRemove   = 1 // Remove(elem(A))
-	opRemoveAt = 2 // RemoveAt(index(A, mode B))
-	opGet      = 3 // Get(index(A, mode B))
-	opIndex    = 4 // Index(elem(A))
-	opContains = 5 // Contains(elem(A))
-	opLen      = 6 // Len()
-	opString   = 7 // String()
-	opScribble = 8 // the caller overwrites position A mod n of the slice it passed to NewSorted with elem(B)
-	opSweep    = 9 // strict orders: Index/Contains of (up to 64 evenly spread) distinct stored values and of 8 values elem(A), elem(A+1), ...
+	opAdd      = 0  // Add(elem(A))
+	opRemove   = 1  // Remove(elem(A))
+	opRemoveAt = 2  // RemoveAt(index(A, mode B))
+	opGet      = 3  // Get(index(A, mode B))
+	opIndex    = 4  // Index(elem(A))
+	opContains = 5  // Contains(elem(A))
+	opLen      = 6  // Len()
+	opString   = 7  // String()
+	opScribble = 8  // the caller overwrites position A mod n of the slice it passed to NewSorted with elem(B)
+	opSweep    = 9  // strict orders: Index/Contains of (up to 64 evenly spread) distinct stored values and of 8 values elem(A), elem(A+1), ...
 	opGC       = 10 // runtime.GC() (twice when A is odd: two cycles empty every sync.Pool); not a library call; the first four of a case only
 	nOps       = 11
 )
